@@ -215,6 +215,13 @@ def run(facts, res):
         ok_i = f is not None and _is_parent_index_plus_1(f["index"], 2)
         ok_d = f is not None and any(y[0] == "param" and y[1] == 1 for y in walk(f["digest"]))
         ok_t = f is not None and f["tail"][0] == "agg" and f["tail"][2] == "Some" and tail_ok(f["tail"], 2)
+        if f is None:
+            # delegation: `new_updated(d, p) = Revision::new(p.index + 1, d, Some(p))` - `new` itself is checked above
+            rt_ = peel(du_of(ub).local_term(0, 20))
+            if rt_[0] == "call" and rt_[1] == "revision::Revision::new" and len(rt_[2]) >= 3:
+                ok_i = _is_parent_index_plus_1(rt_[2][0], 2)
+                ok_d = any(y[0] == "param" and y[1] == 1 for y in walk(rt_[2][1])) and not contains_call(rt_[2][1], "digest_string")
+                ok_t = any(y[0] == "agg" and y[2] == "Some" for y in walk(rt_[2][2])) and any(y[0] == "param" and y[1] == 2 for y in walk(rt_[2][2]))
         res.instance("P2", "Revision::new_updated: index=parent.index+1 %s, digest=arg %s, tail=Some(H(parent.to_string())[..7]) %s" % (ok_i, ok_d, ok_t), ub.loc())
         if not (ok_i and ok_d and ok_t):
             res.violation("P2", "Revision::new_updated|field-provenance", "Revision::new_updated: index = parent.index + 1: %s, digest from argument: %s, tail from parent: %s" % (ok_i, ok_d, ok_t), ub.loc())
@@ -237,6 +244,9 @@ def run(facts, res):
                 any(y[0] == "param" and y[1] == 1 for y in walk(t[2][2]))
         t = peel(du_of(b).local_term(0, 20))
         ok = is_kind_ctor(t)
+        if not ok and t[0] == "call" and t[1] == "revision::Revision::new_updated" and len(t[2]) >= 2:
+            # `new_deleted(p) = new_updated(DELETED_HASH, p)`: new_updated is checked above
+            ok = [x[2] for x in walk(t[2][0]) if x[0] == "const" and x[1] == "str"] == [want] and peel(t[2][1])[0] == "param" and peel(t[2][1])[1] == 1
         if not ok and t[0] == "call" and facts.body(t[1]) is not None and not facts.body(t[1]).public:
             # through a private helper (`new_child(parent, KIND)`): the helper's body with the arguments substituted
             it = inline_calls(t, facts)
